@@ -358,6 +358,48 @@ def _gzip(F, rep):
                 "match" if all(len(got) == len(want) and a[2] == b[2] for a, b in zip(got, want)) else "differ: %s" % [(m, r) for k, m, r in got]))
 
 
+def g7(F, rep):
+    """The expanded container carries the plaintext: in write_chunk_block every path through the DeflateStream / IDATDeflate
+    arm that produces a result passes through write_all(<that variant's>.plain_text)."""
+    from .. import err
+    b = F.body(PC + "write_chunk_block")
+    sw = None
+    for bb in sorted(b.normal_blocks()):
+        t = b.term(bb)
+        if t["k"] != "switch":
+            continue
+        p = op_place(t["d"])
+        d = b.single_def(p["l"]) if p is not None and not p["p"] else None
+        if d and d[2] == "assign" and d[3]["k"] == "discr" and d[3]["place"]["l"] == 1 and not d[3]["place"]["p"]:
+            sw = t
+            break
+    rep.add("G7", "variant-dispatch", sw is not None, b.where(0), "write_chunk_block dispatches on the BlockChunk variant")
+    if sw is None:
+        return
+    adt = F.adts.get(SD + "BlockChunk")
+    prods = err.result_producers(b)
+    n = 0
+    for v in adt["variants"]:
+        if v["name"] == "Literal":
+            continue
+        entry = dict((x, y) for x, y in sw["targets"]).get(v["discr"])
+        if entry is None:
+            rep.add("G7", "arm:" + v["name"], False, b.where(0), "no arm for this variant")
+            continue
+        pat = re.compile(r"^deref\(arg<[^>]*BlockChunk> as %s\.\d+\.plain_text\)$" % re.escape(v["name"]))
+        W = set()
+        for bb, t in b.calls():
+            if strip_generics(callee_def(t)).endswith("Write::write_all") and len(t["args"]) > 1 and pat.match(flow.describe(b, t["args"][1])):
+                W.add(bb)
+        n += len(W)
+        # success continuation of those writes: blocks only reachable through a write
+        free = b.reachable_from(entry, avoid=W)
+        leaks = [(bb, what) for bb, what in prods if bb in free]
+        rep.add("G7", "plaintext-carried:" + v["name"], bool(W) and not leaks, b.where(entry),
+                "%d write(s) of %s.plain_text; results produced without passing one: %s" % (len(W), v["name"], [(b.where(bb), w) for bb, w in leaks][:3]))
+    rep.floor("G7", "plaintext-writes", n, 2)
+
+
 def run(ctx, rep):
     F = ctx.lib
     rep.explanation = ("The recogniser is compared with the wrapper specifications (spec/wrappers.json typed in from RFC 1950/1952, APPNOTE 4.3.7, PNG): "
@@ -368,4 +410,5 @@ def run(ctx, rep):
     g1(F, rep)
     g2_g3(F, rep)
     g4(F, rep)
+    g7(F, rep)
     scan.a4_g5_for(ctx, rep, ("G5",))
